@@ -40,9 +40,9 @@ def make_obs(ctx):
     # day numbers
     for unit in ('DT_DURD', 'DT_DURWK'):
         for lem in (1, 2, 3, 4, 5):
-            jm = (6 if ctx.tier == 'quick' else 7) if lem in (3, 4) else (2 if ctx.tier == 'quick' else 4)
+            jm = (6 if ctx.tier == 'quick' else 7) if lem in (3, 4) else (2 if ctx.tier == 'quick' else 3)
             obs.append(Ob('days:%s:%s' % (unit[6:].lower(), LEM[lem]), H, 'h_days', {'UNIT': unit, 'LEMMA': lem, 'NMAX': nm if unit == 'DT_DURD' else 8, 'JMAX': jm},
-                          units=UNITS, unwind=jm + 3, unwindset=uws(jm), group='days', timeout=1200, remove_bodies=P(['daisy']),
+                          units=UNITS, unwind=jm + 3, unwindset=uws(jm), group='days', timeout=1200 if ctx.tier == 'quick' else 3600, remove_bodies=P(['daisy']),
                           bounds={'FIRST': 'any day number 2000..900000', 'LAST': 'within 1000 days either side', 'state': 'any day within 1100 days of FIRST',
                                   'INC': '-%d..%d %s' % (nm if unit == 'DT_DURD' else 8, nm if unit == 'DT_DURD' else 8, unit[6:].lower()),
                                   'skip': 'any set of weekdays but all seven', 'skip loop / anchored members': '<= %d' % jm}))
@@ -57,7 +57,7 @@ def make_obs(ctx):
                 obs.append(Ob('months:%s:%s:%d-%d' % (unit[6:].lower(), {1: 'dir', 2: 'range', 3: 'this-next'}[lem], lo, hi), H, 'h_months',
                               {'UNIT': unit, 'LEMMA': lem, 'NMAX': 60 if unit == 'DT_DURMO' else 5, 'JMAX': 3, 'YLO': lo, 'YHI': hi}, units=UNITS,
                               unwind=8, unwindset=uws(3), group='months', timeout=1200, remove_bodies=P(['ymd']),
-                              bounds={'FIRST': 'every day of %d..%d' % (lo, hi), 'LAST': 'any date up to 60 years either side',
+                              bounds={'FIRST': 'every day of %d..%d at least 75 years inside 1601..4095' % (lo, hi), 'LAST': 'any date up to 60 years either side',
                                       'state': "any month up to 66 years either side, FIRST's day of the month",
                                       'INC': '-60..60 months' if unit == 'DT_DURMO' else '-5..5 years'}))
     # times of day
@@ -91,7 +91,8 @@ def run(tier, seed):
                     'functions by the contract:* obligations; that the steps compose to the printed progression and to termination '
                     'is an induction argued in DESIGN 8/C15, not a solver query'),
         assumptions=['main() itself (option parsing, text parsing, promotion of mixed arguments, the switch to day counts) is not driven',
-                     'date-time sequences, compound increments, alternative increments and business days not covered',
+                     'date-time sequences, compound increments other than h+m, alternative increments and business days not covered',
+                     'month/year sequences whose FIRST lies within 75 years of the ends of the supported range are outside',
                      'skip sets with month/year steps and with times of day are outside',
                      'equal time-of-day bounds are outside (the tool goes once around the clock)'],
         stubs=['dt_dtadd, dt_dtcmp, dt_dt_in_range_p, dt_get_wday inside dseq.c: vf_dtadd, vf_dtcmp, vf_in_range, vf_get_wday, the contracts proved by contract:*'])
